@@ -20,7 +20,8 @@ ASSUMPTIONS = [
     "data queued before a reset stays readable (Linux keeps the receive queue); the model delivers it before the failure",
     "the segmentation the kernel chooses for recv() is an oracle: the observed chunk sizes are fed to the model (validated 1..rxBufSize)",
 ]
-TRUSTED = ["kernel TCP over loopback; std::vector erase/emplace_back order of sockets/pfds (modelled as list filter/append)",
+TRUSTED = ["tools/cxx2lean_eff.py stage 4 (DESIGN.md 0.7.3): the async send queue over Gen.QueueWorld (operations recognised by canonical callee text + argument patterns + provenance of the structured binding), try/catch as M.tryCatch (system_error is-a runtime_error), lock_guard as lock/unlock calls on normal exits only; Model/GenQueueWorld.lean reads the queue models as that interface; dispatch chain: poll bit values from the macro expansion, branches recognised by exact statement text",
+           "kernel TCP over loopback; std::vector erase/emplace_back order of sockets/pfds (modelled as list filter/append)",
            "the run-time oracle itself is no longer trusted to be consistent with the model: Spec/C03.lean `specStep` (the only place "
            "where property clauses are evaluated; Drive/C03.lean merely parses transcript lines into typed `Spec.Obs`) is proved to "
            "accept every trace of the model (spec_holds_on_model); what stays trusted is that its clauses say what the property text "
